@@ -27,7 +27,7 @@ C10Fails(e) ==
     \o F("set2" \notin DOMAIN e \/ e.set2 = "ok", "a well-formed template was rejected when it was set a second time on the same object")
     \o (IF e.set # "ok" THEN "" ELSE
           F(e.eval = "ok", "rendering a well-formed template failed")
-       \o (IF e.eval # "ok" THEN "" ELSE F(e.out = Render(p[2], e.vars), "rendering differs from the reference semantics")))
+       \o (IF e.eval # "ok" THEN "" ELSE F(IsRendering(e.out, p[2], e.vars), "rendering differs from the reference semantics")))
 
 \* the clauses on a reported name list (names = [[spelling, key]..]) against the wanted keys; who = whose report it is
 NameListFails(names, want, who) ==
